@@ -1,2 +1,66 @@
-import TbotVerif.Spec.Ctx
-/-! C14 — theorems (in progress) -/
+import TbotVerif.Props.CtxExec
+set_option linter.unusedSimpArgs false
+set_option linter.unusedVariables false
+/-! # C14 — the context never has two live instances of a machine and never leaks one
+
+    Theorems about the model `Ctx.run` (Model/Ctx.lean) for **every** program, configuration and
+    fault oracle (machine initialisations and teardowns that raise), by invariant + induction;
+    no bound on program size, nesting depth, number of classes or number of faults. -/
+namespace C14
+open Ctx
+
+/-- a well-formed configuration only has dependency requests to smaller class numbers -/
+theorem depsBelow_of_wf {cfg : Cfg} (h : cfg.wf = true) : cfg.depsBelow := by
+  intro c d hd
+  unfold Cfg.wf at h
+  simp only [Bool.and_eq_true, beq_iff_eq, List.all_eq_true, List.mem_range, decide_eq_true_eq] at h
+  by_cases hc : c < cfg.n
+  · exact h.2 c hc d hd
+  · -- no dependencies are recorded for classes that are not registered
+    exfalso
+    unfold Cfg.depsOf at hd
+    have : cfg.deps.length ≤ c := by omega
+    simp [List.getD, List.getElem?_eq_none this] at hd
+
+/-- the initial state satisfies the invariant -/
+theorem inv_init (ka roe : Bool) : Inv [] (initSt ka roe) := by
+  constructor <;> simp [initSt, IdsNodup, cntCls, cntObj]
+
+/-- the invariant holds in the final state of every well-formed case -/
+theorem inv_runSt (cs : Case) (hwf : cs.cfg.wf = true) : Inv [] (runSt cs) := by
+  unfold runSt
+  have h := (execBlock_inv cs.cfg (depsBelow_of_wf hwf) cs.prog _ (inv_init cs.ka cs.roe)).1
+  exact h.ext (ext_log (by simp [Ev.quiet]))
+
+theorem run_reverse (cs : Case) : (run cs).reverse = (runSt cs).trace := by
+  simp [run]
+
+/-- **I1** — at every moment at most one object per class is up: whenever a machine is
+    initialised, no object of its class is up.  Every program, configuration, fault oracle. -/
+theorem I1 (cs : Case) (hwf : cs.cfg.wf = true) : specI1 (run cs).reverse = true := by
+  rw [run_reverse]; exact (inv_runSt cs hwf).tI1
+
+/-- **I2 (alternation, exactly once)** — every initialisation creates a fresh object (no object is
+    initialised twice) and only an object that is up is torn down. -/
+theorem I2_alternation (cs : Case) (hwf : cs.cfg.wf = true) :
+    always condFresh (run cs).reverse = true ∧ always condDown (run cs).reverse = true := by
+  rw [run_reverse]; exact ⟨(inv_runSt cs hwf).tFresh, (inv_runSt cs hwf).tDown⟩
+
+/-- **I3** — the object yielded by a request (made by the program or inside a `from_context`) is up
+    at that moment. -/
+theorem I3 (cs : Case) (hwf : cs.cfg.wf = true) : specI3 (run cs).reverse = true := by
+  rw [run_reverse]; exact (inv_runSt cs hwf).tYield
+
+/-- corollary of the invariant: in the final state the objects that are up are exactly the
+    instances of the managers, one per class, and the log's `ups` is that set -/
+theorem final_ups (cs : Case) (hwf : cs.cfg.wf = true) (c o : Nat) :
+    (c, o) ∈ ups (run cs).reverse → ((runSt cs).mgrs c).inst = some o := by
+  rw [run_reverse]
+  intro hm
+  have h := inv_runSt cs hwf
+  obtain ⟨_, hc, hu⟩ := (h.upsIff c o).mp hm
+  have := (h.upInst o hu).1
+  rw [hc] at this
+  exact this
+
+end C14
